@@ -118,6 +118,25 @@ func c01Gen(c *core.Ctx) func(yield func(c01Case) bool) {
 		if !ok {
 			return
 		}
+		// creation short-cut from before-instantiation: the processor answers a substitute or the
+		// component itself; every holder and the look-ups must see that one object
+		allGraphs(3, three, false, func(e [][]int) bool {
+			for node := 0; node < 3; node++ {
+				for _, plan := range []int{scen.WrapInst, scen.WrapInstSelf} {
+					wrap := []int{0, 0, 0}
+					wrap[node] = plan
+					for _, base := range [][]int{{0, 1, 2}, {2, 1, 0}} {
+						if ok = yield(c01Case{scen.GraphProg{N: 3, Edges: e, Wrap: wrap, Base: base, Family: "three-n3-binst"}, 0}); !ok {
+							return false
+						}
+					}
+				}
+			}
+			return true
+		})
+		if !ok {
+			return
+		}
 		// pointer-typed holders ([*T], []*T) next to interface-typed ones, one substituted node: a
 		// wrapper does not fit a *T field, so such starts normally fail - if one succeeds, every
 		// holder must still see the one published object
@@ -162,7 +181,8 @@ func c01Run(c *core.Ctx) {
 	first := true
 	Cases(c, c01Gen(c), func(c *core.Ctx, cs c01Case) {
 		p := &cs.GraphProg
-		ref := refGraph(p)
+		q, _ := shortcutView(p)
+		ref := refGraph(q)
 		body := func(ch *envx.Chooser) {
 			o := scen.RunGraph(p, ch)
 			c.S.Evaluations++
@@ -177,7 +197,9 @@ func c01Run(c *core.Ctx) {
 			if o.Panic != "" || o.Abort != "" || o.Err != nil {
 				return // C01 speaks about successful starts (C02 decides whether it had to succeed)
 			}
-			if bad := checkWiring(o, ref, true); len(bad) > 0 {
+			oq := *o
+			oq.Prog = q
+			if bad := checkWiring(&oq, ref, true); len(bad) > 0 {
 				c.Report(key("identity"), "shared-instance", bad[0], cc)
 				return
 			}
